@@ -9,7 +9,7 @@
     for all values and all builder states. *)
 From Coq Require Import List NArith ZArith Bool.
 From Tongo Require Import Lib.Bits Lib.Res Model.TlbCore Spec.TlbSchema Spec.BlockTlb
-  Proofs.TlbCoreP Proofs.TlbCoreC Proofs.TlbSchemaP Proofs.TlbSchemaX Model.TlbLib.
+  Proofs.TlbCoreP Proofs.TlbCoreC Proofs.TlbSchemaP Proofs.TlbSchemaX Model.TlbLib Model.TlbExt Proofs.TlbExtP Proofs.TlbExtP2.
 Import ListNotations.
 
 Theorem C04_refines_sound : forall fuel s d env v x,
@@ -50,6 +50,14 @@ Qed.
 Theorem C04_library_resolver_scope : forall tgt r1 r2 lib,
   tgt <> TgtTyped -> lib_step tgt r1 lib = LibKeep lib /\ lib_step tgt r1 lib = lib_step tgt r2 lib.
 Proof. exact lib_resolver_scope. Qed.
+
+(** Length-prefixed text (FixedLengthText: len:uint8 text:(len * 8 bits)): the prefix is the
+    number of BYTES that follow - not of characters -, then the bytes themselves; with
+    C03_ext_encoder_is_spec this is what the encoder writes. *)
+Theorem C04_lenbytes_counts_bytes : forall fuel w l u,
+  (length l mod 8 = 0)%nat ->
+  xspec (S fuel) (XLenBytes w) (VBits l) u = Some (numeral w (N.of_nat (length l / 8)) ++ l, []).
+Proof. exact lenbytes_exact. Qed.
 
 (** Primitive exactness. *)
 Theorem C04_numeral_exact : forall n x l,
